@@ -43,6 +43,13 @@ RULE = (
     "arguments (context, count, plural, message_context, ...) bound in the SURROUNDING scope "
     "(render data, assign, capture, for variable, with, macro parameter) around tags and "
     "filters that do not pass them; "
+    "the SAME message used 2-4 times on different (or the same) lines through different "
+    "routes (t filter, gettext-family filter, translate tag) as sibling statements or spread "
+    "over a template's top level, judged as a multiset: every use site needs its own "
+    "extracted entry of the right family on its line; 30% of the cases run in an environment "
+    "where the filters / tag are registered under alias names and extraction is told through "
+    "`keywords` (Babel-style dict with specs, list of names, defaults + aliases), the Babel "
+    "catalog of extract_from_templates must contain every per-template entry at its line; "
     "(c) empty / comment-only / blank templates, the compliance corpus and single-edit "
     "mutants of generated templates for 'extraction never fails'. distinct = hash of "
     "(templates, data); non-trivial = the render made >= 1 catalog lookup."
@@ -62,6 +69,12 @@ ASSUMPTIONS = [
     "refuted by: attached to an earlier message, to a message beyond another extracted "
     "message, to two messages, an untagged comment, or >= 1 whole source line between the "
     "comment's last line and the line on which the message's statement starts",
+    "use sites of a re-used message are siblings in one body, or all at the top level of one "
+    "template, so they execute equally often; when the lookup count is not a multiple of the "
+    "number of use sites the group falls back to the per-lookup judgement (reuse_groups_fallback)",
+    "a non-string literal `context:` of a translate tag (5, true, 1.5) counts as a literal "
+    "context (obliged); for filters only string-literal operands oblige (statement: 'applied "
+    "to string literals')",
     "cycle tags hosting a message are generated in the root template only (the cycle group "
     "key is an identity hash; in a re-parsed partial the evaluated item is address-dependent)",
     "a render that raises is tolerated (C02's subject); lookups logged before the error "
@@ -70,6 +83,7 @@ ASSUMPTIONS = [
 
 P_FUNCS = ("pgettext", "npgettext")
 N_FUNCS = ("ngettext", "npgettext")
+ALL_FUNCS = ("gettext", "ngettext", "pgettext", "npgettext")
 RE_ID = re.compile(r"m(\d+)@(\w+)")
 RE_CID = re.compile(r"k(\d+)@(\w+)")
 
@@ -170,6 +184,20 @@ WORDS = ["lorem", "ipsum", "dolor", "sit", "amet", "sed", "do", "ut", "et"]
 PLAIN_FILTERS = ["upcase", "downcase", "append: '!'", "prepend: '> '", "strip", "default: 'x'"]
 CONDS = ["flag", "flag == false", "n == 1", "n2 > 1", "items contains 2", "nothing", "true",
          "flag and n2 == 2", "n == 0 or flag"]
+# environments in which the translation filters / tag are registered under other names
+# (docs/babel.md: "possibly using more user friendly filter names"); canonical -> alias
+ALIAS_SETS: list[dict[str, str]] = [
+    {"t": "tr", "gettext": "_", "ngettext": "n_", "pgettext": "p_", "npgettext": "np_",
+     "translate": "blocktrans", "endtranslate": "endblocktrans", "plural": "pluralform"},
+    {"gettext": "text", "ngettext": "count_text", "pgettext": "ctx_text",
+     "npgettext": "ctx_count_text", "t": "i18n"},
+    {"translate": "trans"},  # 'trans' is one of DEFAULT_KEYWORDS: no keywords needed
+]
+# how message extraction is told about the names: Babel-style dict with specs, plain
+# list of names, defaults + aliases, or nothing (defaults)
+ALIAS_SPECS = {"t": None, "gettext": None, "ngettext": (1, 2), "pgettext": ((1, "c"), 2),
+               "npgettext": ((1, "c"), 2, 3), "translate": None}
+
 FILTER_FORMS = [
     # (weight, name)
     (16, "t"), (8, "t-ctx"), (10, "t-pl"), (8, "t-ctx-pl"), (3, "t-count-only"),
@@ -177,6 +205,7 @@ FILTER_FORMS = [
     (1, "t-ctx-after-kw"), (1, "t-pl-ctx-after-kw"),
     (2, "t-dyn-ctx"), (2, "t-dyn-pl"), (1, "ngettext-dyn-pl"), (1, "pgettext-dyn-ctx"),
     (1, "npgettext-dyn-ctx"), (1, "npgettext-dyn-pl"),
+    (1, "pgettext-ctx-after-kw"), (1, "ngettext-pl-after-kw"), (1, "npgettext-ops-after-kw"),
 ]
 OBLIGED_FORMS = [f for _, f in FILTER_FORMS if "dyn" not in f]
 
@@ -205,6 +234,9 @@ class Emit:
         self.single_only = False
         self.in_macro = 0  # include is disabled inside macro bodies
         self.special = 0  # > 0 while context/count/plural/... are bound in the scope
+        self.alias: dict[str, str] = {}
+        self.nest = 0  # block nesting inside this template (0 = executed once per render)
+        self.open_groups: list[dict[str, Any]] = []  # reusable messages of the top level
 
     # -- low level ------------------------------------------------------------
     def w(self, s: str) -> None:
@@ -218,6 +250,10 @@ class Emit:
         if ml and not self.in_liquid and self.rng.random() < self.ml:
             return self.rng.choice(["\n", "\n  ", " \n\t", "\n\n "])
         return " "
+
+    def nm(self, name: str) -> str:
+        """The name a translation filter / tag is registered under in this case."""
+        return self.alias.get(name, name)
 
     def new_unit(self) -> int:
         """A new markup unit (tag / output / comment / liquid line) starts here."""
@@ -283,6 +319,109 @@ class Emit:
 
     def ctx_id(self, s: dict[str, Any]) -> str:
         return f"c{s['n']}@{s['tpl']}"
+
+    # -- the SAME message used several times (different lines, different routes) ----------
+    REUSE_COUNTS = ["2", "5", "1", "0", "n2", "'3'"]
+
+    def reuse_use(self, g: dict[str, Any], route: str | None = None, host: str | None = None) -> None:
+        """One more use of group g's message at the current position: through the t
+        filter, the gettext-family filter or the translate tag -- always the same
+        (family, context, singular, plural), so every use makes the same catalog request."""
+        rng = self.rng
+        fam = g["family"]
+        if self.in_liquid:
+            route = route if route in ("t", "x") else rng.choice(["t", "x"])
+        route = route or rng.choice(["t", "x", "tag"])
+        u = self.new_unit()
+        s = self.new_site("tag" if route == "tag" else "filter", "reuse-" + route, u)
+        if not g["members"]:
+            s["n"] = g["gid"]  # the id embedded in the message text leads to this site
+        s.update(singular=g["singular"], plural=g["plural"], ctx=g["ctx"], group=g["gid"],
+                 ctx_mode="literal" if g["ctx"] is not None else "none")
+        g["members"] += 1
+        cnt = rng.choice(self.REUSE_COUNTS)
+        if route == "tag":
+            s["filter"] = "translate"
+            s["lines"], s["lit_line"] = [self.line], self.line
+            args = []
+            if g["ctx"] is not None:
+                args.append("context: " + self.lit_full(g["ctx"]))
+            if g["plural"] is not None and rng.random() < 0.8:
+                args.append("count: " + cnt)
+            self.open_tag(self.nm("translate"))
+            self.w((" " + ", ".join(args)) if args else "")
+            self.close_tag()
+            self.w(rng.choice(["", " ", "\n  "]) + g["singular"] + rng.choice(["", " ", "\n"]))
+            if g["plural"] is not None:
+                self.open_tag(self.nm("plural"))
+                self.close_tag()
+                self.w(rng.choice(["", " "]) + g["plural"] + rng.choice(["", "\n"]))
+            self.open_tag(self.nm("endtranslate"))
+            self.close_tag()
+            return
+        if route == "t":
+            name = "t"
+            args = ([self.lit_full(g["ctx"])] if g["ctx"] is not None else []) + (
+                ["plural: " + self.lit_full(g["plural"]), "count: " + cnt]
+                if g["plural"] is not None else [])
+        else:
+            name = fam
+            args = ([self.lit_full(g["ctx"])] if g["ctx"] is not None else []) + (
+                [self.lit_full(g["plural"]), cnt] if g["plural"] is not None else [])
+        s["filter"] = name
+        if self.in_liquid:
+            host = rng.choice(["echo", "assign"])
+            self.vars += 1
+            self.w("echo " if host == "echo" else f"assign v{self.vars} = ")
+        else:
+            host = host or rng.choice(["output", "output", "echo", "assign"])
+            if host == "output":
+                self.w("{{" + rng.choice([" ", " ", "\n  "]))
+            elif host == "echo":
+                self.open_tag("echo")
+                self.w(rng.choice([" ", " ", "\n "]))
+            else:
+                self.vars += 1
+                self.open_tag("assign")
+                self.w(f" v{self.vars} =" + rng.choice([" ", " ", "\n "]))
+        s["lines"], s["lit_line"] = [self.line], self.line
+        self.w(self.lit_full(g["singular"]) + " | " + self.nm(name)
+               + ((": " + ", ".join(args)) if args else ""))
+        if self.in_liquid:
+            self.w("\n")
+        elif host == "output":
+            self.w(" }}")
+        else:
+            self.close_tag()
+
+    def new_group(self, fam: str) -> dict[str, Any]:
+        self.serial += 1
+        return {"gid": self.serial, "family": fam, "members": 0,
+                "singular": f"m{self.serial}@{self.tpl} one",
+                "plural": f"m{self.serial}@{self.tpl} many" if fam in N_FUNCS else None,
+                "ctx": f"c{self.serial}@{self.tpl}" if fam in P_FUNCS else None}
+
+    def stmt_reuse(self) -> None:
+        """Start a message that is used more than once, or use one again."""
+        rng = self.rng
+        top = self.nest == 0 and not self.in_liquid and not self.in_macro
+        if top and self.open_groups and rng.random() < 0.55:
+            self.reuse_use(rng.choice(self.open_groups))
+            return
+        g = self.new_group(rng.choice(["gettext", "gettext", "pgettext", "ngettext", "npgettext"]))
+        self.reuse_use(g)
+        if top:
+            self.open_groups.append(g)
+            extra = rng.choice([0, 1, 1])
+        else:
+            extra = rng.choice([1, 1, 2])
+        for _ in range(extra):
+            if not self.in_liquid:
+                self.w(rng.choice(["\n", "\n", " ", "\n\n", " filler\n", "\nsome text\n"]))
+                if rng.random() < 0.2:
+                    self.comment("Translators:")
+                    self.w(rng.choice(["", "\n"]))
+            self.reuse_use(g)
 
     def pick_count(self, s: dict[str, Any], avoid: tuple[str, ...] = ()) -> str:
         while True:
@@ -388,6 +527,8 @@ class Emit:
             if form.endswith("dyn-pl"):
                 s["obliged"], p = False, "pl"
             args = [p, self.pick_count(s)]
+            if form.endswith("after-kw"):
+                s["count"], args[1] = {"lit": 2}, "2"
         elif form.startswith("pgettext"):
             s["ctx"], s["ctx_mode"] = cx, "literal"
             c = self.lit_full(cx)
@@ -402,9 +543,15 @@ class Emit:
             if form.endswith("dyn-pl"):
                 s["obliged"], p = False, "pl"
             args = [c, p, self.pick_count(s)]
+            if form.endswith("after-kw"):
+                s["count"], args[2] = {"lit": 2}, "2"
+        if form.endswith("after-kw") and name != "t":
+            # a keyword argument written before the positional operands
+            s["flags"].append("operands-after-keyword")
+            args.insert(0, kv("zz", "'kwval'"))
         if has_var:
             args.append(kv("who", rng.choice(["who", "'Wanda'", "items[0]"])))
-        self.w(g() + "|" + g() + name)
+        self.w(g() + "|" + g() + self.nm(name))
         if args:
             self.w(sep() + g())
             for i, a in enumerate(args):
@@ -420,7 +567,7 @@ class Emit:
             self.w(self.gap(ml) + "|" + self.gap(ml) + f)
             if allow_t and f == "upcase" and rng.random() < 0.4:
                 # a computed lookup: not obliged, must only leave extraction working
-                self.w(" | " + rng.choice(["t", "gettext", "t: 'late ctx'"]))
+                self.w(" | " + rng.choice([self.nm("t"), self.nm("gettext"), self.nm("t") + ": 'late ctx'"]))
 
     # -- one operand: message or not --------------------------------------------
     def message_operand(self, construct: str, unit: int, ml: bool, expr_line: int | None,
@@ -523,7 +670,7 @@ class Emit:
         elif shape == "tstring":
             self.tstring(host + "-tstring", unit, expr_line)
             if rng.random() < 0.3:
-                self.w(" | " + rng.choice(["upcase", "t", "append: '.'"]))
+                self.w(" | " + rng.choice(["upcase", self.nm("t"), "append: '.'"]))
         elif shape == "tail-t":
             # translation filter as a tail filter: computed operand, not obliged
             s = self.new_site("filter", host + "-tail", unit)
@@ -531,7 +678,7 @@ class Emit:
             s["flags"].append("tail-filter")
             s["lines"] = [self.line]
             self.w(self.lit_full(s["singular"]) + " if " + rng.choice(CONDS) + " else 'other' || ")
-            self.w(rng.choice(["t", "gettext", "t: 'tail ctx'"]))
+            self.w(rng.choice([self.nm("t"), self.nm("gettext"), self.nm("t") + ": 'tail ctx'"]))
         else:
             left_msg = rng.random() < 0.8
             if left_msg:
@@ -620,7 +767,9 @@ class Emit:
             s["ctx_mode"] = "dynamic"
             args.append(kv("context", rng.choice(["cx", "nothing", "who"])))
         elif ctx_mode == "nonstring":
-            s["ctx_mode"] = "dynamic"
+            # a literal whose value is known statically, just not a string
+            s["ctx_mode"] = "literal"
+            s["flags"].append("non-string-literal-context")
             args.append(kv("context", rng.choice(["5", "true", "1.5"])))
         if "count" in v:
             if v["count"] is not None:
@@ -639,7 +788,7 @@ class Emit:
         if use_var and rng.random() < 0.6:
             args.append(kv("who", rng.choice(["who", "'Wanda'", "items[1]"])))
         rng.shuffle(args)
-        self.open_tag("translate")
+        self.open_tag(self.nm("translate"))
         if ml:
             self.w(self.rng.choice(["\n", "\n   "]))
         for i, a in enumerate(args):
@@ -661,10 +810,10 @@ class Emit:
         body(s["singular"])
         if has_plural:
             s["plural"] = self.plural_id(s)
-            self.open_tag("plural")
+            self.open_tag(self.nm("plural"))
             self.close_tag()
             body(s["plural"])
-        self.open_tag("endtranslate")
+        self.open_tag(self.nm("endtranslate"))
         self.close_tag()
 
     def stmt_text(self) -> None:
@@ -778,12 +927,12 @@ class Emit:
             s = self.new_site("tag", "translate-tag", u)
             s["filter"] = "translate"
             s["lines"] = [self.line]
-            self.open_tag("translate")
+            self.open_tag(self.nm("translate"))
             self.w(" who: ")
             self.tstring("translate-arg-tstring", u, None)
             self.close_tag()
             self.w(s["singular"] + " {{ who }}")
-            self.open_tag("endtranslate")
+            self.open_tag(self.nm("endtranslate"))
             self.close_tag()
         elif kind == "macro":
             self.macros += 1
@@ -808,7 +957,7 @@ class Emit:
             s["filter"], s["form"] = "t", "t"
             s["lines"] = [self.line]
             s["lit_line"] = self.line
-            self.w("{{ " + self.lit_full(s["singular"]) + " | t: extra: ")
+            self.w("{{ " + self.lit_full(s["singular"]) + " | " + self.nm("t") + ": extra: ")
             self.tstring("filter-arg-tstring", u, None)
             self.w(" }}")
 
@@ -879,13 +1028,22 @@ class Emit:
             self.close_tag()
         self.special += 1  # assignments stay in scope for the rest of the template
 
-    def body(self, depth: int, n: int) -> None:
+    def body(self, depth: int, n: int, top: bool = False) -> None:
+        if not top:
+            self.nest += 1
+        try:
+            self._body(depth, n)
+        finally:
+            if not top:
+                self.nest -= 1
+
+    def _body(self, depth: int, n: int) -> None:
         rng = self.rng
         for _ in range(n):
             k = rng.choices(
                 ["msg", "text", "block", "tstring-tag", "partial", "comment", "liquid",
-                 "multi", "bind"],
-                [42, 16, 14 if depth < 3 else 0, 7, 5, 5, 5 if not self.in_liquid else 0, 7, 3],
+                 "multi", "bind", "reuse"],
+                [40, 15, 14 if depth < 3 else 0, 7, 5, 5, 5 if not self.in_liquid else 0, 7, 3, 9],
             )[0]
             if self.in_liquid:
                 self.w(rng.choice(["", "  ", "\t", "    "]))
@@ -905,6 +1063,8 @@ class Emit:
                 self.stmt_comment_then_multi()
             elif k == "bind":
                 self.stmt_bind_special()
+            elif k == "reuse":
+                self.stmt_reuse()
             else:
                 self.stmt_liquid(depth)
             if not self.in_liquid:
@@ -1070,6 +1230,13 @@ def build_case(rng: random.Random, size: int, rare: bool = True) -> dict[str, An
     sites: list[dict[str, Any]] = []
     comments: list[dict[str, Any]] = []
     eol = rng.choice(["\n", "\n", "\n", "\r\n"])
+    alias: dict[str, str] = {}
+    kwmode = None
+    if rng.random() < 0.3:
+        alias = rng.choice(ALIAS_SETS)
+        kwmode = rng.choice(["alias-dict", "alias-list", "default+alias"])
+        if alias == {"translate": "trans"} and rng.random() < 0.5:
+            kwmode = None  # 'trans' is a default keyword
     for name in names:
         r = rng.random()
         if r < 0.06:
@@ -1080,12 +1247,14 @@ def build_case(rng: random.Random, size: int, rare: bool = True) -> dict[str, An
                                           "{% # Translators: x %}", "\n\n", "plain text only"])
             continue
         e = Emit(rng, name, [], rng.choice([0.0, 0.2, 0.5]), size, rare)
-        e.body(1, rng.randint(1, max(2, size // 3)))
+        e.alias = alias
+        e.body(1, rng.randint(1, max(2, size // 3)), top=True)
         templates[name] = e.source().replace("\n", eol)
         sites += e.sites
         comments += e.comments
     e = Emit(rng, "tA", names, rng.choice([0.0, 0.2, 0.4, 0.7]), size, rare)
-    e.body(0, rng.randint(max(1, size // 2), size))
+    e.alias = alias
+    e.body(0, rng.randint(max(1, size // 2), size), top=True)
     templates["tA"] = e.source().replace("\n", eol)
     sites += e.sites
     comments += e.comments
@@ -1109,7 +1278,24 @@ def build_case(rng: random.Random, size: int, rare: bool = True) -> dict[str, An
         "templates": templates, "root": "tA", "sites": sites, "comments": comments,
         "datas": datas, "modes": ["sync", "sync", "async"],
         "auto_escape": rng.random() < 0.15,
+        "aliases": alias, "kwmode": kwmode,
     }
+
+
+def keywords_for(case: dict[str, Any]) -> Any:
+    """The `keywords` argument that tells extraction about the case's alias names."""
+    al = case.get("aliases") or {}
+    mode = case.get("kwmode")
+    if not al or mode is None:
+        return None
+    spec = {al.get(canon, canon): sp for canon, sp in ALIAS_SPECS.items()}
+    if mode == "alias-dict":
+        return spec
+    if mode == "alias-list":
+        return list(spec)
+    from liquid2.messages import DEFAULT_KEYWORDS
+
+    return {**DEFAULT_KEYWORDS, **spec}
 
 
 # ---------------------------------------------------------------------------
@@ -1127,8 +1313,9 @@ def enum_cases(rng: random.Random) -> list[dict[str, Any]]:
     out: list[dict[str, Any]] = []
     counts: list[tuple[str, Any]] = [*COUNT_LITS, ("n", "var"), ("n2", "var")]
 
-    def one(fn) -> None:  # noqa: ANN001
+    def one(fn, alias: dict[str, str] | None = None, kwmode: str | None = None) -> None:  # noqa: ANN001
         e = Emit(rng, "tA", [], 0.0, 1, True)
+        e.alias = alias or {}
         fn(e)
         datas = []
         for nv in (2, 0, 1):
@@ -1140,7 +1327,8 @@ def enum_cases(rng: random.Random) -> list[dict[str, Any]]:
             datas.append(d)
         out.append({"templates": {"tA": e.source()}, "root": "tA", "sites": e.sites,
                     "comments": e.comments, "datas": datas, "modes": ["sync", "sync", "async"],
-                    "auto_escape": False})
+                    "auto_escape": False, "aliases": alias or {}, "kwmode": kwmode,
+                    "catalog": True})
 
     def with_count(e: Emit, txt: str, val: Any):  # noqa: ANN202
         def pick(s: dict[str, Any], avoid: tuple[str, ...] = ()) -> str:
@@ -1293,6 +1481,55 @@ def enum_cases(rng: random.Random) -> list[dict[str, Any]]:
                             e.w("\n")
                             e.stmt_message(host="output", shape="simple")
                     one(fn)
+    # the SAME message used twice / three times: every pair of routes, same and other lines
+    for fam in ALL_FUNCS:
+        for r1 in ("t", "x", "tag"):
+            for r2 in ("t", "x", "tag"):
+                for sep in ("\n", " ", "\n\nfiller\n"):
+                    def fn(e: Emit, fam=fam, r1=r1, r2=r2, sep=sep) -> None:
+                        e.rng = random.Random(f"reuse:{fam}:{r1}:{r2}:{sep}")
+                        g = e.new_group(fam)
+                        e.w("first line\n")
+                        e.reuse_use(g, r1)
+                        e.w(sep)
+                        e.reuse_use(g, r2)
+                    one(fn)
+        for wrap in ("", "for", "if", "liquid"):
+            def fn(e: Emit, fam=fam, wrap=wrap) -> None:
+                e.rng = random.Random(f"reuse3:{fam}:{wrap}")
+                g = e.new_group(fam)
+                if wrap == "liquid":
+                    e.w("{% liquid\n")
+                    e.in_liquid = True
+                    for _ in range(3):
+                        e.reuse_use(g)
+                    e.in_liquid = False
+                    e.w("%}")
+                    return
+                e.w({"": "", "for": "{% for i in (1..2) %}\n", "if": "{% if flag %}\n"}[wrap])
+                for r in ("t", "tag", "x"):
+                    e.reuse_use(g, r)
+                    e.w("\n")
+                e.w({"": "", "for": "{% endfor %}", "if": "{% endif %}"}[wrap])
+            one(fn)
+    # filters / tag registered under other names, extraction told through `keywords`
+    for ai, alias in enumerate(ALIAS_SETS):
+        for kwmode in ("alias-dict", "alias-list", "default+alias"):
+            for form in ("t", "t-ctx", "t-pl", "t-ctx-pl", "gettext", "ngettext", "pgettext",
+                         "npgettext"):
+                def fn(e: Emit, form=form, ai=ai, kwmode=kwmode) -> None:
+                    e.rng = random.Random(f"alias:{ai}:{kwmode}:{form}")
+                    e.pick_count = lambda s, avoid=(): (s.__setitem__("count", {"lit": 2}), "2")[1]  # type: ignore[method-assign]
+                    e.w("x\n")
+                    e.stmt_message(form=form, host="output", shape="simple")
+                one(fn, alias, kwmode)
+            for plural in (False, True):
+                for cx in ("none", "literal"):
+                    def fn(e: Emit, plural=plural, cx=cx, ai=ai, kwmode=kwmode) -> None:
+                        e.rng = random.Random(f"alias-tag:{ai}:{kwmode}:{plural}:{cx}")
+                        e.w("x\ny\n")
+                        e.stmt_translate({"plural": plural, "ctx": cx, "count": ("2", 2), "ml": False})
+                    one(fn, alias, kwmode)
     return out
 
 
@@ -1397,9 +1634,28 @@ class Checker:
             return None
         return got
 
+    def register_aliases(self, env: Any, al: dict[str, str]) -> None:
+        if not al:
+            return
+        from liquid2 import builtin as b
+        from liquid2.builtin.tags.translate_tag import TranslateTag
+
+        classes = {"t": b.Translate, "gettext": b.GetText, "ngettext": b.NGetText,
+                   "pgettext": b.PGetText, "npgettext": b.NPGetText}
+        for canon, cls in classes.items():
+            if canon in al:
+                env.filters[al[canon]] = cls()
+        if "translate" in al:
+            tag_cls = type("AliasTranslateTag", (TranslateTag,), {
+                "end": al.get("endtranslate", "endtranslate"),
+                "plural_name": al.get("plural", "plural"),
+            })
+            env.tags[al["translate"]] = tag_cls(env)
+
     def parse_all(self, case: dict[str, Any]) -> tuple[Any, dict[str, Any]] | None:
         env = self.Environment(loader=self.DictLoader(case["templates"]),
                                auto_escape=bool(case.get("auto_escape")))
+        self.register_aliases(env, case.get("aliases") or {})
         tpls = {}
         for name in case["templates"]:
             try:
@@ -1421,27 +1677,26 @@ class Checker:
         sites = {(s["tpl"], s["n"]): s for s in case["sites"]}
         comments = {(c["tpl"], c["n"]): c for c in case["comments"]}
         extracted: dict[str, list[dict[str, Any]] | None] = {}
+        kw = keywords_for(case)
+        kwargs: dict[str, Any] = {"keywords": kw} if kw is not None else {}
+        if kw is not None:
+            ctx.count("extraction_calls_with_alias_keywords")
+            ctx.seen("keyword_modes", case.get("kwmode"))
+        groups: dict[tuple[str, int], list[dict[str, Any]]] = {}
+        for s in case["sites"]:
+            if "group" in s:
+                groups.setdefault((s["tpl"], s["group"]), []).append(s)
         for name, t in tpls.items():
-            extracted[name] = self.extract(t, case, name)
+            extracted[name] = self.extract(t, case, name, **kwargs)
             if extracted[name] is not None:
-                self.check_comments(case, name, extracted[name], sites, comments, ("Translators:",))
+                self.check_comments(case, name, extracted[name], sites, comments, ("Translators:",), groups)
             if any(c["tpl"] == name and c["tag"] == "NOTE:" for c in case["comments"]):
                 tags = ["NOTE:"]
-                alt = self.extract(t, case, name, comment_tags=tags)
+                alt = self.extract(t, case, name, comment_tags=tags, **kwargs)
                 if alt is not None:
-                    self.check_comments(case, name, alt, sites, comments, tuple(tags))
+                    self.check_comments(case, name, alt, sites, comments, tuple(tags), groups)
         if case.get("catalog"):
-            ctx.count("extract_from_templates_calls")
-            try:
-                self.extract_from_templates(*tpls.values(), strip_comment_tags=True)
-            except Exception as e:  # noqa: BLE001
-                where = ("empty-template" if any(not t.nodes for t in tpls.values())
-                         else _innermost(e.__traceback__))
-                self.viol(
-                    f"extraction-raises:{type(e).__name__}:{where}",
-                    f"extract_from_templates raised {type(e).__name__}: {str(e)[:100]}",
-                    {"case": _slim(case), "catalog": True},
-                )
+            self.check_catalog(case, tpls, extracted, kw)
         if self.verbose:
             for name, ents in extracted.items():
                 print(f"extracted from {name}:")
@@ -1469,24 +1724,87 @@ class Checker:
                 print(f"render #{di} ({mode}) lookups:")
                 for lk in rec.log:
                     print("   ", lk)
+            pending: dict[tuple[str, int], list[tuple]] = {}
             for lk in rec.log:
-                self.check_lookup(case, di, data, lk, sites, extracted)
+                self.check_lookup(case, di, data, lk, sites, extracted, pending=pending)
+            for gkey, lks in pending.items():
+                self.check_group(case, di, data, gkey, lks, groups[gkey], sites, extracted)
+
+    # -- extract_from_templates (Babel catalog) ---------------------------------------------
+    def check_catalog(self, case: dict[str, Any], tpls: dict[str, Any],
+                      extracted: dict[str, list[dict[str, Any]] | None], kw: Any) -> None:
+        ctx = self.ctx
+        variants: list[Any] = [None]
+        if isinstance(kw, dict):
+            variants = [kw]
+        elif isinstance(kw, list):
+            # the catalog builder needs specs: defaults + the alias names
+            variants = [keywords_for({**case, "kwmode": "default+alias"})]
+        for k in variants:
+            ctx.count("extract_from_templates_calls")
+            try:
+                cat = self.extract_from_templates(*tpls.values(), keywords=k, strip_comment_tags=True)
+            except Exception as e:  # noqa: BLE001
+                if any(not t.nodes for t in tpls.values()) and isinstance(e, IndexError):
+                    where = "empty-template"
+                elif isinstance(e, KeyError) and isinstance(k, dict) and e.args and e.args[0] not in k:
+                    where = "keywords-without-gettext-names"
+                else:
+                    where = _innermost(e.__traceback__)
+                self.viol(
+                    f"extraction-raises:{type(e).__name__}:{where}",
+                    f"extract_from_templates raised {type(e).__name__}: {str(e)[:100]}"
+                    + (f" with keywords={sorted(k)}" if isinstance(k, dict) and where.startswith("keywords") else ""),
+                    {"case": _slim(case), "catalog": True},
+                )
+                continue
+            if case.get("kwmode") == "alias-list":
+                continue  # the per-template entries were extracted under another keywords value
+            # every message reported per template must be in the catalog, at its line
+            for name, ents in extracted.items():
+                for e in ents or []:
+                    if not e["singular"] or e["func"] not in (*P_FUNCS, *N_FUNCS, "gettext"):
+                        continue
+                    ctx.count("catalog_entries_checked")
+                    msg = cat.get(e["singular"], context=e["ctx"] if e["func"] in P_FUNCS else None)
+                    ok = msg is not None and any(ln == e["lineno"] for _, ln in msg.locations)
+                    if ok and e["func"] in N_FUNCS:
+                        ok = isinstance(msg.id, (list, tuple)) and list(msg.id) == [e["singular"], e["plural"]]
+                    if not ok:
+                        self.viol(
+                            f"catalog-missing:{e['func']}",
+                            f"extract_from_template reports {e['func']} {e['singular']!r} at line "
+                            f"{e['lineno']} of {name!r} but the catalog of extract_from_templates has "
+                            f"{'no such message' if msg is None else 'it as ' + repr(msg.id) + ' at ' + repr(msg.locations)}",
+                            {"case": _slim(case), "catalog": True, "template": name, "entry": e},
+                        )
 
     # -- runtime lookup vs extraction ------------------------------------------------------
     def check_lookup(self, case: dict[str, Any], di: int, data: dict[str, Any], lk: tuple,
                      sites: dict[tuple[str, int], dict[str, Any]],
-                     extracted: dict[str, list[dict[str, Any]] | None]) -> None:
+                     extracted: dict[str, list[dict[str, Any]] | None],
+                     pending: dict[tuple[str, int], list[tuple]] | None = None,
+                     force_site: dict[str, Any] | None = None) -> None:
         ctx = self.ctx
         func, mctx, singular, plural, _n = lk
-        ctx.count("lookups_logged")
-        ctx.seen("runtime_funcs", func)
         singular = str(singular)
-        ids = RE_ID.findall(singular)
-        site = sites.get((ids[0][1], int(ids[0][0]))) if len(ids) == 1 else None
-        if site is not None and site["kind"] == "filter" and site["singular"] != singular:
-            site = None  # a computed string that merely contains the id
+        if force_site is not None:
+            site = force_site
+        else:
+            ctx.count("lookups_logged")
+            ctx.seen("runtime_funcs", func)
+            ids = RE_ID.findall(singular)
+            site = sites.get((ids[0][1], int(ids[0][0]))) if len(ids) == 1 else None
+            if site is not None and site["kind"] == "filter" and site["singular"] != singular:
+                site = None  # a computed string that merely contains the id
+            if site is not None and "group" in site and site["singular"] != singular:
+                site = None
         if site is None or not site["obliged"]:
             ctx.count("lookups_unobliged")
+            return
+        if "group" in site and force_site is None and pending is not None:
+            # a message with several use sites: judged per render as a multiset
+            pending.setdefault((site["tpl"], site["group"]), []).append(lk)
             return
         ents = extracted.get(site["tpl"])
         if ents is None:
@@ -1524,11 +1842,18 @@ class Checker:
         fam = [e for e in same if pl_ok(e) and ctx_ok(e)]
         if not fam:
             reasons = []
-            if not any(pl_ok(e) for e in same):
+            if any(e["func"] not in ALL_FUNCS for e in same):
+                # extraction names a function that is not one of the four gettext functions
+                reasons.append("funcname-not-a-gettext-name")
+            elif "operands-after-keyword" in site["flags"]:
+                reasons.append("operands-after-keyword")
+            elif not any(pl_ok(e) for e in same):
                 reasons.append("count-" + count_class(site, data) if site["plural"]
                                else "plural-not-an-operand")
-            if not any(ctx_ok(e) for e in same):
-                flags = [f for f in site["flags"] if f in ("context-after-keyword", "empty-context")]
+            if not reasons[:1] in (["funcname-not-a-gettext-name"], ["operands-after-keyword"]) \
+                    and not any(ctx_ok(e) for e in same):
+                flags = [f for f in site["flags"] if f in ("context-after-keyword", "empty-context",
+                                                           "non-string-literal-context")]
                 reasons.append(flags[0] if flags else
                                "context-not-an-operand" if site["ctx_mode"] == "none" else "context")
             if not reasons:
@@ -1562,17 +1887,114 @@ class Checker:
         elif lit_line > 1:
             ctx.count("lineno_matched_beyond_line_1")
 
+    # -- one message, several use sites --------------------------------------------------------
+    def check_group(self, case: dict[str, Any], di: int, data: dict[str, Any],
+                    gkey: tuple[str, int], lks: list[tuple], members: list[dict[str, Any]],
+                    sites: dict[tuple[str, int], dict[str, Any]],
+                    extracted: dict[str, list[dict[str, Any]] | None]) -> None:
+        """All use sites of a group are siblings (or all at the top level of their template),
+        so they are executed equally often and make the same catalog request: r lookups
+        by k sites.  Each use site needs its own extracted entry: right family, its line."""
+        ctx = self.ctx
+        ents = extracted.get(gkey[0])
+        if ents is None:
+            ctx.count("lookups_skipped_extraction_failed", len(lks))
+            return
+        sigs = {(f, None if c is None else str(c), None if p is None else str(p)) for f, c, _s, p, _n in lks}
+        k = len(members)
+        if len(sigs) != 1 or len(lks) % k:
+            # not the execution pattern the generator intended (e.g. a render error in between):
+            # fall back to the per-lookup judgement against the first use site
+            ctx.count("reuse_groups_fallback")
+            for lk in lks:
+                self.check_lookup(case, di, data, lk, sites, extracted, force_site=members[0])
+            return
+        func, mctx, plural = next(iter(sigs))
+        singular = members[0]["singular"]
+        r_ctx, r_pl = func in P_FUNCS, func in N_FUNCS
+
+        def fam_ok(e: dict[str, Any]) -> bool:
+            return (e["singular"] == singular and e["func"] in ALL_FUNCS
+                    and (e["func"] in N_FUNCS) == r_pl and (not r_pl or e["plural"] == plural)
+                    and (e["func"] in P_FUNCS) == r_ctx and (not r_ctx or e["ctx"] == mctx))
+
+        fam = [i for i, e in enumerate(ents) if fam_ok(e)]
+        # bipartite matching use site -> entry (augmenting paths; groups are tiny)
+        cand = {j: [i for i in fam if ents[i]["lineno"] in m["lines"]] for j, m in enumerate(members)}
+        owner: dict[int, int] = {}
+
+        def assign(j: int, seen: set[int]) -> bool:
+            for i in cand[j]:
+                if i in seen:
+                    continue
+                seen.add(i)
+                if i not in owner or assign(owner[i], seen):
+                    owner[i] = j
+                    return True
+            return False
+
+        unmatched = [j for j in sorted(cand, key=lambda j: len(cand[j])) if not assign(j, set())]
+        per_site = len(lks) // k
+        for j, m in enumerate(members):
+            if j not in unmatched:
+                ctx.count("lookups_matched", per_site)
+                ctx.count("reuse_use_sites_matched")
+                ctx.seen("matched_constructs", m["construct"])
+                ctx.seen("reuse_routes", f"{m['construct']}:{func}")
+                if m["lines"][0] > 1:
+                    ctx.count("lineno_matched_beyond_line_1", per_site)
+        if k > 1 and not unmatched:
+            ctx.count("reuse_groups_matched")
+            if len({m["construct"] for m in members}) > 1:
+                ctx.count("reuse_groups_matched_mixed_routes")
+        for j in unmatched:
+            m = members[j]
+            if not fam:
+                # nothing of the right family at all: the ordinary judgement names the reason
+                self.check_lookup(case, di, data, lks[0], sites, extracted, force_site=m)
+                continue
+            kindname = "translate-tag" if m["kind"] == "tag" else f"{m['filter']}-filter"
+            at_line = [e for e in ents if e["singular"] == singular and e["lineno"] in m["lines"]]
+            if at_line and len(at_line) >= sum(1 for x in members if x["lines"] == m["lines"]):
+                # this use IS reported on its line, under another function family
+                odd = any(e["func"] not in ALL_FUNCS for e in at_line)
+                self.viol(
+                    f"family-mismatch:{kindname}:"
+                    + ("funcname-not-a-gettext-name" if odd else "reused-message"),
+                    f"render called {func}(ctx={mctx!r}, {singular!r}, plural={plural!r}) for the use on "
+                    f"line {m['lines']} but extraction reports {sorted({e['func'] for e in at_line})} there",
+                    {"case": _slim(case), "data_index": di, "lookup": list(lks[0]), "site": m,
+                     "extracted_same_id": at_line},
+                )
+                continue
+            self.viol(
+                f"reused-message:use-site-not-reported:{kindname}",
+                f"message {singular!r} is used at lines {[x['lines'] for x in members]} and every use "
+                f"made a {func} lookup, but extraction reports it only at lines "
+                f"{[ents[i]['lineno'] for i in fam]}: no entry for the use on line {m['lines']}",
+                {"case": _slim(case), "data_index": di, "lookup": list(lks[0]), "site": m,
+                 "extracted_same_id": [ents[i] for i in fam]},
+            )
+
     # -- comments ------------------------------------------------------------------------------
     def check_comments(self, case: dict[str, Any], name: str, ents: list[dict[str, Any]],
                        sites: dict[tuple[str, int], dict[str, Any]],
                        comments: dict[tuple[str, int], dict[str, Any]],
-                       tags: tuple[str, ...]) -> None:
+                       tags: tuple[str, ...],
+                       groups: dict[tuple[str, int], list[dict[str, Any]]] | None = None) -> None:
         ctx = self.ctx
         # units of all messages extraction reported for this template (by id)
         ent_site: list[dict[str, Any] | None] = []
+        used: set[tuple[str, int]] = set()
         for e in ents:
             ids = RE_ID.findall(e["singular"] or "")
             s = sites.get((ids[0][1], int(ids[0][0]))) if len(ids) == 1 else None
+            if s is not None and "group" in s:
+                # several use sites share the id: the entry belongs to the use on its line
+                s = next((m for m in (groups or {}).get((s["tpl"], s["group"]), [])
+                          if e["lineno"] in m["lines"] and (m["tpl"], m["n"]) not in used), None)
+                if s is not None:
+                    used.add((s["tpl"], s["n"]))
             ent_site.append(s if s is not None and s["tpl"] == name else None)
         units = sorted({s["unit"] for s in ent_site if s is not None})
         attached: dict[str, tuple[str, int]] = {}
@@ -1630,7 +2052,7 @@ class Checker:
 def _slim(case: dict[str, Any], only: str | None = None) -> dict[str, Any]:
     """A replayable copy of the case."""
     return {k: case[k] for k in ("templates", "root", "sites", "comments", "datas", "modes",
-                                  "auto_escape") if k in case}
+                                  "auto_escape", "aliases", "kwmode") if k in case}
 
 
 # ---------------------------------------------------------------------------
@@ -1669,7 +2091,13 @@ def floors(tier: str) -> dict[str, int]:
         "set:matched_forms": 12,
         "set:comment_kinds_attached": 6,
         "set:runtime_funcs": 4,
-        "enum_cases": 2_000,
+        "enum_cases": 2_300,
+        "reuse_use_sites_matched": 8_000 * k,
+        "reuse_groups_matched": 3_000 * k,
+        "reuse_groups_matched_mixed_routes": 1_000 * k,
+        "extraction_calls_with_alias_keywords": 800 * k,
+        "catalog_entries_checked": 3_000 * k,
+        "set:keyword_modes": 3,
         "comment_attachments_multi_message_expr": 2_000 * k,
         "lookups_matched_special_names_in_scope": 30_000 * k,
         "tag_lookups_without_context_arg_but_context_in_scope": 4_000 * k,
